@@ -50,9 +50,15 @@ pub fn observe(reg: &scale_info::PortableRegistry, spec: &SettingsSpec) -> Obser
         GenOutcome::Panic(p) => format!("PANIC({})", truncate(&p, 60)),
     };
     let mut r2 = reg.clone();
-    let dd = guarded(|| scale_typegen::utils::ensure_unique_type_paths(&mut r2).map_err(|e| ErrKind::of(&e).name()));
+    let dd = guarded(|| {
+        scale_typegen::utils::ensure_unique_type_paths(&mut r2).map_err(|e| ErrKind::of(&e).name())
+    });
     let dedup_paths = match dd {
-        Ok(Ok(())) => r2.types.iter().map(|t| t.ty.path.segments.join("::")).collect(),
+        Ok(Ok(())) => r2
+            .types
+            .iter()
+            .map(|t| t.ty.path.segments.join("::"))
+            .collect(),
         Ok(Err(e)) => vec![format!("Err({e})")],
         Err(p) => vec![format!("PANIC({})", truncate(&p, 60))],
     };
@@ -63,25 +69,26 @@ pub fn observe(reg: &scale_info::PortableRegistry, spec: &SettingsSpec) -> Obser
     };
     let derives = spec.build_derives();
     let subs = spec.build_substitutes();
-    let validation = match guarded(|| validate_substitutes_and_derives_against_registry(&subs, &derives, reg)) {
-        Err(p) => vec![format!("PANIC({})", truncate(&p, 60))],
-        Ok(Ok(())) => vec!["Ok".into()],
-        Ok(Err(e)) => {
-            let mut v: BTreeSet<String> = BTreeSet::new();
-            for (p, s) in &e.derives_for_unknown_types {
-                let s: BTreeSet<String> = s.iter().map(tok).collect();
-                v.insert(format!("derives {} {:?}", tok(p), s));
+    let validation =
+        match guarded(|| validate_substitutes_and_derives_against_registry(&subs, &derives, reg)) {
+            Err(p) => vec![format!("PANIC({})", truncate(&p, 60))],
+            Ok(Ok(())) => vec!["Ok".into()],
+            Ok(Err(e)) => {
+                let mut v: BTreeSet<String> = BTreeSet::new();
+                for (p, s) in &e.derives_for_unknown_types {
+                    let s: BTreeSet<String> = s.iter().map(tok).collect();
+                    v.insert(format!("derives {} {:?}", tok(p), s));
+                }
+                for (p, s) in &e.attributes_for_unknown_types {
+                    let s: BTreeSet<String> = s.iter().map(tok).collect();
+                    v.insert(format!("attrs {} {:?}", tok(p), s));
+                }
+                for (p, t) in &e.substitutes_for_unknown_types {
+                    v.insert(format!("subst {} {}", tok(p), tok(t)));
+                }
+                v.into_iter().collect()
             }
-            for (p, s) in &e.attributes_for_unknown_types {
-                let s: BTreeSet<String> = s.iter().map(tok).collect();
-                v.insert(format!("attrs {} {:?}", tok(p), s));
-            }
-            for (p, t) in &e.substitutes_for_unknown_types {
-                v.insert(format!("subst {} {}", tok(p), tok(t)));
-            }
-            v.into_iter().collect()
-        }
-    };
+        };
     Observation {
         module,
         dedup_paths,
@@ -97,16 +104,28 @@ fn sortedness(module: &str) -> Option<String> {
         for list in &item.derive_lists {
             for w in list.windows(2) {
                 if w[0] >= w[1] {
-                    return Some(format!("derive list of {} is not strictly increasing: {:?}", p.join("::"), list));
+                    return Some(format!(
+                        "derive list of {} is not strictly increasing: {:?}",
+                        p.join("::"),
+                        list
+                    ));
                 }
             }
         }
         if item.derive_lists.len() > 1 {
-            return Some(format!("{} has {} derive attributes", p.join("::"), item.derive_lists.len()));
+            return Some(format!(
+                "{} has {} derive attributes",
+                p.join("::"),
+                item.derive_lists.len()
+            ));
         }
         for w in item.attrs.windows(2) {
             if w[0] >= w[1] {
-                return Some(format!("attribute list of {} is not strictly increasing: {:?}", p.join("::"), item.attrs));
+                return Some(format!(
+                    "attribute list of {} is not strictly increasing: {:?}",
+                    p.join("::"),
+                    item.attrs
+                ));
             }
         }
     }
@@ -183,7 +202,11 @@ pub fn check_case(c: &DetCase, ctx: &mut Ctx, plain_bin: Option<&str>, max_sched
     impl<'a> Drop for Timer<'a> {
         fn drop(&mut self) {
             if std::env::var("VERIF_TIMING").is_ok() {
-                eprintln!("  case `{}`: {:.1}s", self.1, self.0.elapsed().as_secs_f64());
+                eprintln!(
+                    "  case `{}`: {:.1}s",
+                    self.1,
+                    self.0.elapsed().as_secs_f64()
+                );
             }
         }
     }
@@ -208,9 +231,17 @@ pub fn check_case(c: &DetCase, ctx: &mut Ctx, plain_bin: Option<&str>, max_sched
         }
     };
     let first_diff = |a: &str, b: &str| -> String {
-        let i = a.chars().zip(b.chars()).position(|(x, y)| x != y).unwrap_or(a.len().min(b.len()));
+        let i = a
+            .chars()
+            .zip(b.chars())
+            .position(|(x, y)| x != y)
+            .unwrap_or(a.len().min(b.len()));
         let lo = i.saturating_sub(40);
-        format!("…{}… vs …{}…", truncate(&a[lo.min(a.len())..], 120), truncate(&b[lo.min(b.len())..], 120))
+        format!(
+            "…{}… vs …{}…",
+            truncate(&a[lo.min(a.len())..], 120),
+            truncate(&b[lo.min(b.len())..], 120)
+        )
     };
     // (0) same process, same everything, twice
     let (again, trace2) = run_with(&Sched::identity(), || observe(&reg, &c.settings));
@@ -218,7 +249,10 @@ pub fn check_case(c: &DetCase, ctx: &mut Ctx, plain_bin: Option<&str>, max_sched
     if again != canon || trace2 != trace {
         ctx.violation(
             format!("C06/same-process/{}", diff(&again)),
-            format!("two runs in one process differ: {}", first_diff(&again.module, &canon.module)),
+            format!(
+                "two runs in one process differ: {}",
+                first_diff(&again.module, &canon.module)
+            ),
             replay(json!("rerun")),
             size,
         );
@@ -270,7 +304,10 @@ pub fn check_case(c: &DetCase, ctx: &mut Ctx, plain_bin: Option<&str>, max_sched
                 size,
             );
         } else if t.len() != trace.len() && sc.overrides.len() <= 1 && sc.default_code == 0 {
-            ctx.note("schedules whose run had a different number of iteration points", 1);
+            ctx.note(
+                "schedules whose run had a different number of iteration points",
+                1,
+            );
         }
     }
     // (3) fresh processes with the real std maps
@@ -291,22 +328,24 @@ pub fn check_case(c: &DetCase, ctx: &mut Ctx, plain_bin: Option<&str>, max_sched
                     ch.wait_with_output()
                 });
             match out {
-                Ok(o) if o.status.success() => match serde_json::from_slice::<Observation>(&o.stdout) {
-                    Ok(o) => {
-                        if o != canon {
-                            ctx.violation(
+                Ok(o) if o.status.success() => {
+                    match serde_json::from_slice::<Observation>(&o.stdout) {
+                        Ok(o) => {
+                            if o != canon {
+                                ctx.violation(
                                 format!("C06/fresh-process/{}", diff(&o)),
                                 format!("a fresh process (std hash maps, run {k}) gives a different {}: {}", diff(&o), first_diff(&o.module, &canon.module)),
                                 replay(json!("fresh-process")),
                                 size,
                             );
+                            }
+                        }
+                        Err(e) => {
+                            eprintln!("machinery error: mc-plain output does not parse: {e}");
+                            std::process::exit(2)
                         }
                     }
-                    Err(e) => {
-                        eprintln!("machinery error: mc-plain output does not parse: {e}");
-                        std::process::exit(2)
-                    }
-                },
+                }
                 other => {
                     eprintln!("machinery error: mc-plain failed: {other:?}");
                     std::process::exit(2)
@@ -321,27 +360,53 @@ fn rich_settings() -> Vec<(String, SettingsSpec)> {
     base.root = "root".into();
     // derives with the same last segment; attributes that differ only in their arguments
     base.derives_all = vec!["::x::Clone".into(), "::y::Clone".into(), "Debug".into()];
-    base.attrs_all = vec!["#[serde(a)]".into(), "#[serde(b)]".into(), "#[other]".into()];
+    base.attrs_all = vec![
+        "#[serde(a)]".into(),
+        "#[serde(b)]".into(),
+        "#[other]".into(),
+    ];
     let mut v = vec![("globals".to_string(), base.clone())];
     let mut s = base.clone();
     s.derives_for = vec![
-        ("p::a::N".into(), vec!["::z::Eq".into(), "::x::Clone".into()], false),
-        ("p::h::Host".into(), vec!["::z::Ord".into(), "::z::Hash".into()], true),
+        (
+            "p::a::N".into(),
+            vec!["::z::Eq".into(), "::x::Clone".into()],
+            false,
+        ),
+        (
+            "p::h::Host".into(),
+            vec!["::z::Ord".into(), "::z::Hash".into()],
+            true,
+        ),
         ("p::a::N".into(), vec!["::z::Hash".into()], true),
         ("p::g::D".into(), vec!["::z::Eq".into()], true),
     ];
     s.attrs_for = vec![
-        ("p::h::Host".into(), vec!["#[serde(c)]".into(), "#[serde(a)]".into()], true),
+        (
+            "p::h::Host".into(),
+            vec!["#[serde(c)]".into(), "#[serde(a)]".into()],
+            true,
+        ),
         ("p::a::N".into(), vec!["#[zz]".into()], false),
     ];
     v.push(("specific+recursive".to_string(), s.clone()));
     let mut s2 = s.clone();
     s2.substitutes.push(("p::a::N".into(), "::sub::N".into()));
     s2.substitutes.push(("p::b::W".into(), "::sub::W".into()));
-    s2.substitutes.push(("unknown::T".into(), "::sub::T".into()));
-    s2.derives_for.push(("unknown::U".into(), vec!["::z::Eq".into(), "::z::Ord".into()], false));
-    s2.derives_for.push(("unknown::U".into(), vec!["::z::Hash".into()], true));
-    s2.attrs_for.push(("unknown::V".into(), vec!["#[serde(c)]".into(), "#[serde(a)]".into()], false));
+    s2.substitutes
+        .push(("unknown::T".into(), "::sub::T".into()));
+    s2.derives_for.push((
+        "unknown::U".into(),
+        vec!["::z::Eq".into(), "::z::Ord".into()],
+        false,
+    ));
+    s2.derives_for
+        .push(("unknown::U".into(), vec!["::z::Hash".into()], true));
+    s2.attrs_for.push((
+        "unknown::V".into(),
+        vec!["#[serde(c)]".into(), "#[serde(a)]".into()],
+        false,
+    ));
     v.push(("substitutes+unknown".to_string(), s2));
     v
 }
@@ -363,26 +428,44 @@ pub fn corpus(thorough: bool) -> Vec<DetCase> {
         if !thorough && i % 2 == 1 {
             continue;
         }
-        regs.push((format!("D-arms {i}"), RegSrc::Prog(arms_program(l, Position::NamedVariant, false, "N"))));
+        regs.push((
+            format!("D-arms {i}"),
+            RegSrc::Prog(arms_program(l, Position::NamedVariant, false, "N")),
+        ));
     }
     // families: several renamed paths at once (three clashing paths with two shapes each)
     let fam = |fields_a: Vec<FamTy>, fields_b: Vec<FamTy>| FamState {
         members: vec![
-            Member { form: MemberForm::NamedStruct, fields: fields_a },
-            Member { form: MemberForm::NamedStruct, fields: fields_b },
+            Member {
+                form: MemberForm::NamedStruct,
+                fields: fields_a,
+            },
+            Member {
+                form: MemberForm::NamedStruct,
+                fields: fields_b,
+            },
         ],
         neighbours: 0,
         lead: 0,
     };
-    regs.push(("D-family two shapes".into(), RegSrc::Prog(fam(vec![FamTy::U8], vec![FamTy::U16]).program())));
-    regs.push(("D-family twins".into(), RegSrc::Prog(fam(vec![FamTy::X, FamTy::Y], vec![FamTy::X2, FamTy::Y2]).program())));
+    regs.push((
+        "D-family two shapes".into(),
+        RegSrc::Prog(fam(vec![FamTy::U8], vec![FamTy::U16]).program()),
+    ));
+    regs.push((
+        "D-family twins".into(),
+        RegSrc::Prog(fam(vec![FamTy::X, FamTy::Y], vec![FamTy::X2, FamTy::Y2]).program()),
+    ));
     // three clashing paths: Foo, Bar, Baz with two shapes each
     {
         let mut defs = vec![];
         let mut fields = vec![];
         for name in ["Foo", "Bar", "Baz"] {
             for (k, t) in [U8, U16].into_iter().enumerate() {
-                fields.push((format!("{}{}", name.to_lowercase(), k), Field::new(Ty::Named(defs.len(), vec![]))));
+                fields.push((
+                    format!("{}{}", name.to_lowercase(), k),
+                    Field::new(Ty::Named(defs.len(), vec![])),
+                ));
                 defs.push(Def::strukt(&["m", "f"], name, &[], named(vec![("x", t)])));
             }
         }
@@ -400,26 +483,59 @@ pub fn corpus(thorough: bool) -> Vec<DetCase> {
     let g = GenState {
         form: BodyForm::Named,
         params: ParamForm::Two,
-        fields: vec![Field::new(Ty::Param(0)), Field::new(Ty::Phantom(b(Ty::Param(1))))],
+        fields: vec![
+            Field::new(Ty::Param(0)),
+            Field::new(Ty::Phantom(b(Ty::Param(1)))),
+        ],
         insts: vec![vec![U8, U16], vec![U16, Ty::Named(G_N, vec![])]],
     };
-    regs.push(("D-generic two params, one unused".into(), RegSrc::Prog(g.program())));
+    regs.push((
+        "D-generic two params, one unused".into(),
+        RegSrc::Prog(g.program()),
+    ));
     let g2 = GenState {
         form: BodyForm::Enum,
         params: ParamForm::Two,
-        fields: vec![Field::new(Ty::Phantom(b(Ty::Param(0)))), Field::new(Ty::Phantom(b(Ty::Param(1))))],
+        fields: vec![
+            Field::new(Ty::Phantom(b(Ty::Param(0)))),
+            Field::new(Ty::Phantom(b(Ty::Param(1)))),
+        ],
         insts: vec![vec![U8, U16], vec![Ty::Named(G_N, vec![]), U8]],
     };
-    regs.push(("D-generic both params unused".into(), RegSrc::Prog(g2.program())));
+    regs.push((
+        "D-generic both params unused".into(),
+        RegSrc::Prog(g2.program()),
+    ));
     // two recursive roots that reach two different instantiations of ONE generic definition: the
     // recursive registrations meet in one path-keyed entry
     {
         let defs = vec![
             Def::strukt(&["p", "a"], "N", &[], named(vec![("v", U32)])),
             Def::strukt(&["p", "g"], "D", &["T"], named(vec![("t", Ty::Param(0))])),
-            Def::strukt(&["p", "l"], "Left", &[], named(vec![("w", Ty::Named(1, vec![U8]))])),
-            Def::strukt(&["p", "l"], "Right", &[], named(vec![("w", Ty::Named(1, vec![U32])), ("n", Ty::Named(0, vec![]))])),
-            Def::strukt(&["p", "h"], "Host", &[], named(vec![("l", Ty::Named(2, vec![])), ("r", Ty::Named(3, vec![]))])),
+            Def::strukt(
+                &["p", "l"],
+                "Left",
+                &[],
+                named(vec![("w", Ty::Named(1, vec![U8]))]),
+            ),
+            Def::strukt(
+                &["p", "l"],
+                "Right",
+                &[],
+                named(vec![
+                    ("w", Ty::Named(1, vec![U32])),
+                    ("n", Ty::Named(0, vec![])),
+                ]),
+            ),
+            Def::strukt(
+                &["p", "h"],
+                "Host",
+                &[],
+                named(vec![
+                    ("l", Ty::Named(2, vec![])),
+                    ("r", Ty::Named(3, vec![])),
+                ]),
+            ),
         ];
         regs.push((
             "two recursive roots meeting in one generic".into(),
@@ -436,7 +552,15 @@ pub fn corpus(thorough: bool) -> Vec<DetCase> {
             Def::strukt(&["p", "a"], "Apple", &[], named(vec![("v", U32)])),
             Def::strukt(&["p", "a"], "Pear", &[], named(vec![("v", U16)])),
             Def::strukt(&["p", "g"], "W", &["T"], named(vec![("t", Ty::Param(0))])),
-            Def::strukt(&["p", "h"], "Host", &[], named(vec![("a", Ty::Named(2, vec![Ty::Named(0, vec![])])), ("b", Ty::Named(2, vec![Ty::Named(1, vec![])]))])),
+            Def::strukt(
+                &["p", "h"],
+                "Host",
+                &[],
+                named(vec![
+                    ("a", Ty::Named(2, vec![Ty::Named(0, vec![])])),
+                    ("b", Ty::Named(2, vec![Ty::Named(1, vec![])])),
+                ]),
+            ),
         ];
         regs.push((
             "recursive root with two instantiations".into(),
@@ -447,12 +571,23 @@ pub fn corpus(thorough: bool) -> Vec<DetCase> {
         ));
     }
     // one path registered under two spellings (`p::a::N` and `::p::a::N`) with different derives
-    regs.push(("one path, two spellings".into(), RegSrc::Prog(arms_program(&Ty::Named(D_N, vec![]), Position::NamedStruct, false, "N"))));
+    regs.push((
+        "one path, two spellings".into(),
+        RegSrc::Prog(arms_program(
+            &Ty::Named(D_N, vec![]),
+            Position::NamedStruct,
+            false,
+            "N",
+        )),
+    ));
     // chain metadata: the full Polkadot registry in the thorough tier; in the quick tier the first
     // single-id closure with 80..150 entries (the full registry costs ~1 s per run under the hooks)
     let full = crate::run::polkadot_registry();
     let (chain_src, chain_root_path) = if thorough {
-        (RegSrc::Polkadot { retain: None }, "polkadot_runtime::RuntimeCall".to_string())
+        (
+            RegSrc::Polkadot { retain: None },
+            "polkadot_runtime::RuntimeCall".to_string(),
+        )
     } else {
         let mut pick = None;
         for id in 0..full.types.len() as u32 {
@@ -477,11 +612,27 @@ pub fn corpus(thorough: bool) -> Vec<DetCase> {
             if rn == "polkadot" {
                 s.root = "runtime_types".into();
                 s.derives_for = vec![
-                    ("sp_core::crypto::AccountId32".into(), vec!["::z::Eq".into(), "::z::Ord".into()], false),
-                    (chain_root_path.clone(), vec!["::z::Hash".into(), "::z::Eq".into()], true),
-                    ("pallet_balances::pallet::Call".into(), vec!["::z::Ord".into()], true),
+                    (
+                        "sp_core::crypto::AccountId32".into(),
+                        vec!["::z::Eq".into(), "::z::Ord".into()],
+                        false,
+                    ),
+                    (
+                        chain_root_path.clone(),
+                        vec!["::z::Hash".into(), "::z::Eq".into()],
+                        true,
+                    ),
+                    (
+                        "pallet_balances::pallet::Call".into(),
+                        vec!["::z::Ord".into()],
+                        true,
+                    ),
                 ];
-                s.attrs_for = vec![(chain_root_path.clone(), vec!["#[serde(c)]".into(), "#[serde(a)]".into()], true)];
+                s.attrs_for = vec![(
+                    chain_root_path.clone(),
+                    vec!["#[serde(c)]".into(), "#[serde(a)]".into()],
+                    true,
+                )];
                 if sn != "specific+recursive" {
                     continue;
                 }
@@ -506,7 +657,10 @@ pub fn corpus(thorough: bool) -> Vec<DetCase> {
                     ("p::a::N".into(), vec!["::z::Plain".into()], false),
                     ("::p::a::N".into(), vec!["::z::Colon".into()], false),
                 ];
-                s.attrs_for = vec![("::p::a::N".into(), vec!["#[colon]".into()], false), ("p::a::N".into(), vec!["#[plain]".into()], false)];
+                s.attrs_for = vec![
+                    ("::p::a::N".into(), vec!["#[colon]".into()], false),
+                    ("p::a::N".into(), vec!["#[plain]".into()], false),
+                ];
             }
             out.push(DetCase {
                 reg: r.clone(),
